@@ -33,8 +33,8 @@ set_option maxHeartbeats 4000000 in
 theorem ffi_open_ok_struct (inp : Nat → Value) (path : Value) (errNull : Bool) (fs : List (String × Value))
     (h0 : inp 0 = .enumv "Ok" [.struct "ShmReader" fs]) :
     run (ctxE inp) "ffi_lib::clockbound_open" .unit [cptr path, errArg errNull]
-    = .ok (heapPtr (ctxOf defaultValue (.struct "ShmReader" fs))) .unit [evOpen (cstr path) (inp 0)] := by
-  cases errNull <;> simp [rs_eval, rs_code, clientFns, h0, ctxOf, errArg]
+    = .ok (heapPtr (ctxOf (ffiErrValue ⟨.none, 0, none⟩) (.struct "ShmReader" fs))) .unit [evOpen (cstr path) (inp 0)] := by
+  cases errNull <;> simp [rs_eval, rs_code, clientFns, h0, ctxOf, errArg, ffiErrValue, ffiKindValue, ffiKindName]
 
 /-! ### the two representations of `ShmError` -/
 
